@@ -32,10 +32,19 @@ def state_of(est, name, data):
   return out
 
 
-def same_state(a, b):
+def same_state(a, b, rounding=False):
+  """bit-identical, except with rounding=True (models computed by ARPACK's implicitly restarted Lanczos iteration, whose restart
+  vectors come from a generator internal to the library: two runs agree to rounding - 1e-9 relative here - and in sign)"""
   if set(a) != set(b):
     return 'different attributes'
   for k in a:
+    if rounding and k in ('components', 'dist'):
+      x, y = np.asarray(a[k], dtype=float), np.asarray(b[k], dtype=float)
+      if x.shape != y.shape:
+        return k + ' differs (shapes %s, %s)' % (x.shape, y.shape)
+      if not np.allclose(x, y, rtol=1e-9, atol=1e-9 * (np.abs(y).max() + 1e-300)):
+        return k + ' differs (max abs difference %.3g, largest entry %.3g)' % (np.abs(x - y).max(), np.abs(y).max())
+      continue
     if k == 'n_features_in':
       if a[k] != b[k]:
         return 'n_features_in_ differs (%r vs %r)' % (a[k], b[k])
@@ -82,8 +91,10 @@ def run_history(ctx, name, rng, nsets, length):
   for data in datasets:
     kw = fits.base_kwargs(name, data)
     kw.update(array_params(name, data, rng))
-    if name == 'LFDA' and rng.random() < 0.6:
-      kw['k'] = int(data['d'] + rng.integers(0, 4))      # legal: a k beyond n_features - 1 is clipped for THIS fit (with a warning)
+    if name == 'LFDA':
+      # legal: a k beyond n_features - 1 is clipped for THIS fit (with a warning); the key is always present, so that
+      # set_params before each fit also resets it
+      kw['k'] = int(data['d'] + rng.integers(0, 4)) if rng.random() < 0.6 else None
     if name in ('LFDA', 'RCA'):
       # the dimension-reducing branches (iterative / generalised eigen-solvers) in about half of the data sets; the key is always
       # present, so that set_params before each fit also resets it
@@ -192,7 +203,8 @@ def run_history(ctx, name, rng, nsets, length):
   ctx.count('history_independent', 1)
   ctx.seen((name, tuple(ops)), len([o for o in ops if o[0] == 'fit']) > 1)
   ctx.hist('history_length', len(ops))
-  r = same_state(state_of(est, name, data), state_of(ref, name, data))
+  arpack = name == 'LFDA' and kws[k].get('n_components') is not None
+  r = same_state(state_of(est, name, data), state_of(ref, name, data), rounding=arpack)
   d_true = data['d']
   if r is None and getattr(est, 'n_features_in_', None) != d_true:
     r = 'n_features_in_ is %r but the last fit saw %d features' % (getattr(est, 'n_features_in_', None), d_true)
@@ -202,7 +214,7 @@ def run_history(ctx, name, rng, nsets, length):
                    dict(estimator=name, ops=ops, dims=[dd['d'] for dd in datasets],
                         tuple_size=fits.TUPLE_SIZE.get(name)), observed=r)
   ctx.count('deterministic', 1)
-  r2 = same_state(state_of(ref, name, data), state_of(again, name, data))
+  r2 = same_state(state_of(ref, name, data), state_of(again, name, data), rounding=arpack)
   if r2 is not None:
     ctx.fail_input('deterministic', 'two fresh fits with the same integer random_state differ: ' + r2, dict(estimator=name))
   # closures handed out earlier still compute what they computed then
